@@ -16,14 +16,15 @@ Variable cap : Z.
 Variable ucfg : bool.
 Variable daf : bool.
 
-Notation step := (Shutdown.step cap ucfg daf true).
-Notation apply := (Shutdown.apply cap ucfg daf true).
-Notation run_from := (Shutdown.run_from cap ucfg daf true).
-Notation run := (Shutdown.run cap ucfg daf true).
-Notation prompt_from := (Shutdown.prompt_from cap ucfg daf true).
-Notation prompt := (Shutdown.prompt cap ucfg daf true).
-Notation step_thread := (Shutdown.step_thread cap daf true).
-Notation work_step := (Shutdown.work_step daf true).
+Notation step := (Shutdown.step cap ucfg daf true true).
+Notation apply := (Shutdown.apply cap ucfg daf true true).
+Notation run_from := (Shutdown.run_from cap ucfg daf true true).
+Notation run := (Shutdown.run cap ucfg daf true true).
+Notation prompt_from := (Shutdown.prompt_from cap ucfg daf true true).
+Notation prompt := (Shutdown.prompt cap ucfg daf true true).
+Notation step_thread := (Shutdown.step_thread cap daf true true).
+Notation work_step := (Shutdown.work_step daf true true).
+Notation fail_exit := (Shutdown.fail_exit true).
 Notation step_run := (Shutdown.step_run ucfg).
 
 Definition wf_pc (t : tid) (p : pc) : bool :=
@@ -391,7 +392,7 @@ Proof.
     + intros _. apply (i2_stopping w H). rewrite Ep. reflexivity.
     + intros Hs; apply (i2_stopped w H) in Hs; congruence.
   - (* RSave *)
-    injection E as <-.
+    destruct (d_rlock (w_dat w)); [discriminate|]. injection E as <-.
     assert (H' : Inv2 (save w)).
     { i2g H; cbn; [apply (i2_conn w H)|apply (i2_len w H)|apply (i2_stopping w H)|apply (i2_call w H)|apply (i2_stopped w H)]. }
     apply inv2_set_pc; try exact H'; cbn; try discriminate; auto.
@@ -463,7 +464,7 @@ Qed.
 
 Lemma inv2_fail_exit w t : t <> AP -> Inv2 w -> Inv2 (fail_exit w t).
 Proof.
-  intros Hap H. unfold fail_exit. destruct t; try congruence; try (apply inv2_end_body; [discriminate|exact H]).
+  intros Hap H. unfold Shutdown.fail_exit. destruct t; try congruence; try (apply inv2_end_body; [discriminate|exact H]).
   - apply inv2_exit; [apply inv2_request_stop, H|discriminate|discriminate].
   - apply inv2_exit; [apply inv2_restart, H|discriminate|discriminate].
   - apply inv2_exit; [exact H|discriminate|discriminate].
@@ -866,9 +867,10 @@ Qed.
 
 (* progress: after a stop request the protocol is never stuck, except in the D26 states *)
 Theorem progress w :
-  Inv w -> Inv2 w -> 1 <= cap -> stopping w = true -> stopped w = false -> d26_state cap w = false -> can_go w.
+  Inv w -> Inv2 w -> d_rlock (w_dat w) = false -> 1 <= cap -> stopping w = true -> stopped w = false ->
+  d26_state cap w = false -> can_go w.
 Proof.
-  intros HI H Hcap Hst Hns Hd.
+  intros HI H Hrl Hcap Hst Hns Hd.
   destruct (pc_of w) eqn:Ep.
   - apply go_run; [rewrite Ep; exact I|]. unfold Shutdown.step_run. rewrite Ep. discriminate.
   - apply go_run; [rewrite Ep; exact I|]. unfold Shutdown.step_run. rewrite Ep. discriminate.
@@ -918,7 +920,7 @@ Proof.
             by (rewrite (inv_proc w HI); unfold thread in *; cbn in *; rewrite E1, E2, E3, E4; reflexivity);
           split; [unfold prompt_ok; rewrite Ep; unfold no_spawned_processing; rewrite E1, E2, E3, E4; rewrite orb_true_r; reflexivity|];
           cbn; unfold Shutdown.step_run; rewrite Ep, Hn; discriminate).
-  - apply go_run; [rewrite Ep; exact I|]. unfold Shutdown.step_run. rewrite Ep. discriminate.
+  - apply go_run; [rewrite Ep; exact I|]. unfold Shutdown.step_run. rewrite Ep, Hrl. discriminate.
   - apply go_run; [rewrite Ep; exact I|]. unfold Shutdown.step_run. rewrite Ep. discriminate.
   - apply go_run; [rewrite Ep; exact I|]. unfold Shutdown.step_run. rewrite Ep. discriminate.
   - apply (inv_stopped w HI) in Ep. congruence.
@@ -937,8 +939,8 @@ Proof.
 Qed.
 
 Theorem progress_daf w :
-  daf = true -> Inv w -> Inv2 w -> 1 <= cap -> stopping w = true -> stopped w = false -> can_go w.
-Proof. intros Hd HI H Hc Hst Hs. apply progress; try assumption. apply no_d26_daf; assumption. Qed.
+  daf = true -> Inv w -> Inv2 w -> d_rlock (w_dat w) = false -> 1 <= cap -> stopping w = true -> stopped w = false -> can_go w.
+Proof. intros Hd HI H Hrl Hc Hst Hs. apply progress; try assumption. apply no_d26_daf; assumption. Qed.
 
 (* ---------------------------------------------------------------------------------------------- *)
 (* the ranking function *)
@@ -1063,7 +1065,7 @@ Proof.
       assert (Hend : rank (end_body w t) < rank w).
       { unfold end_body. rewrite rank_set_thread, Et. rk. destruct t; lia. }
       assert (Hfail : rank (fail_exit w t) < rank w).
-      { unfold fail_exit. destruct t; try exact Hend.
+      { unfold Shutdown.fail_exit. destruct t; try exact Hend.
         all: rewrite rank_exit, ?thread_request_stop, ?thread_restart, Et, ?rank_request_stop, ?rank_restart; lia. }
       destruct k, f as [|f']; try ((apply some_inj in E'; subst w''); first [exact Hend|exact Hfail]).
       - (apply some_inj in E'; subst w''). rewrite rank_set_thread, rank_callback.
@@ -1139,7 +1141,8 @@ Proof.
     unfold pc_of in *. cbn. rewrite Ep.
     rewrite (rank_ext (set_ch_open w CTx false) w) by reflexivity. cbn. lia.
   - destruct (n_proc (w_cnt w) =? 0); [|discriminate]. apply some_inj in E; subst w'. rewrite rank_set_pc, Ep. cbn. lia.
-  - apply some_inj in E; subst w'. rewrite rank_set_pc. unfold pc_of in *. cbn. rewrite Ep.
+  - destruct (d_rlock (w_dat w)); [discriminate|].
+    apply some_inj in E; subst w'. rewrite rank_set_pc. unfold pc_of in *. cbn. rewrite Ep.
     rewrite (rank_ext (save w) w) by reflexivity. cbn. lia.
   - rewrite Hh in E. rewrite orb_true_r in E. apply some_inj in E; subst w'. rewrite rank_set_pc, Ep. cbn. lia.
   - apply some_inj in E; subst w'. rewrite rank_set_pc. unfold pc_of in *. cbn. rewrite Ep.
